@@ -74,6 +74,7 @@ func judgePitches(c *core.Ctx, stream string, idx int, p model.Piece, f model.Fl
 			c.Nontrivial(keys[i] + "|" + in.Chord.Deg.Notation() + "|" + in.Chord.Symbol + "|" + b)
 		}
 	}
+	c.Eval(k) // every chord compared is a case of its own (the run itself was counted by playPiece)
 	if k != len(runs) {
 		c.Violate(stream, idx, sigBase+":extra", fmt.Sprintf("%d groups of note-ons in the file but only %d chords written", len(runs), k), withYAML(pieceDesc(p, f), p))
 	}
